@@ -137,11 +137,33 @@ def mk(op, args, lo, hi):
     return mknode(op, args, lo, hi)
 
 
+TELESCOPE_DIVMOD = [False]  # opt-in (C09 Base58): m*(x div m) + (x mod m) is rebuilt as x (lemma checked by z3 in checks/c09.py)
+
+
+def _telescope(a, b):
+    """x when a + b has the shape m*(x div m) + (x mod m) (either order; the quotient may have been folded to a constant)"""
+    for p, r in ((a, b), (b, a)):
+        if r.op != "mod":
+            continue
+        x, m = r.args
+        if p.op == "mul" and is_const(p.args[1]) and p.args[1].args[0] == m:
+            q = p.args[0]
+            if q.op == "div" and q.args[0] is x and q.args[1] == m:
+                return x
+        if is_const(p) and m > 0 and x.lo // m == x.hi // m and p.args[0] == m * (x.lo // m):
+            return x
+    return None
+
+
 def n_add(a, b):
     if is_const(a) and a.args[0] == 0:
         return b
     if is_const(b) and b.args[0] == 0:
         return a
+    if TELESCOPE_DIVMOD[0]:
+        t = _telescope(a, b)
+        if t is not None:
+            return t
     if is_const(a) and not is_const(b):
         a, b = b, a
     return mk("add", (a, b), a.lo + b.lo, a.hi + b.hi)
